@@ -11,7 +11,7 @@ use serde_json::json;
 
 pub const ID: &str = "C09";
 
-pub const RULE: &str = "cases = (operator table, token string, table representation). Tables of 1..6 operators over the symbols + - * ! ^ ~ with binding powers 0..3 and fixities prefix / postfix / infix-left / infix-right; 70% 'plain' tables (at most one operator per symbol and fixity, never postfix and infix on one symbol, left- and right-associative infix never at one power), 30% unrestricted (duplicates, postfix+infix on one symbol, mixed associativity at one level: decided by declaration order); atoms a, b and parenthesised sub-expressions (recursive). Token strings: ALL strings over (atoms, used symbols, one foreign symbol, parentheses when used) up to length L for every table of the exhaustive tier, derived well-formed expressions with 0..2 edits and random strings up to length 40 in the random tier. Each table is built as a Vec of boxed operators, as a tuple of boxed operators and (for the 8 tables of the static catalogue) as a tuple of plain, unboxed operators; parse and check. Oracle: an independently written textbook binding-power evaluator over the table DESCRIPTION (prefix chain or atom; then repeatedly: the first postfix operator, in declaration order, that binds at least as tightly as the context; else the first infix operator that binds at least as tightly AND has a right operand, otherwise the operator stays unconsumed; equal powers resolved by associativity): compared on acceptance, the fully parenthesised tree and the consumed length (observed by following the expression with a rest-capturing parser). Oracle-free: flattening the tree yields exactly the consumed tokens in order; the three table representations and check mode agree; every fold callback's e.span() covers exactly the flattened leaves of the sub-expression it builds and its e.state() equals the fold of the tokens before its end (C07 / C18 for Pratt). NON-TRIVIAL = the expression contains two operators of equal power, or a unary operator next to a binary one on the same operand, or an infix operator whose right operand is missing; distinct = distinct (table, string).";
+pub const RULE: &str = "cases = (operator table, token string, table representation). Tables of 1..6 operators over the symbols + - * ! ^ ~ with binding powers 0..3 and fixities prefix / postfix / infix-left / infix-right, one operator in five written as the symbol doubled (`--`: a multi-token operator parser, which fails after consuming a token on `-a`); 70% 'plain' tables (at most one operator per symbol and fixity, never postfix and infix on one symbol, left- and right-associative infix never at one power), 30% unrestricted (duplicates, postfix+infix on one symbol, mixed associativity at one level: decided by declaration order); atoms a, b and parenthesised sub-expressions (recursive). Token strings: ALL strings over (atoms, used symbols, one foreign symbol, parentheses when used) up to length L for every table of the exhaustive tier, derived well-formed expressions with 0..2 edits and random strings up to length 40 in the random tier. Each table is built as a Vec of boxed operators, as a tuple of boxed operators and (for the 9 tables of the static catalogue) as a tuple of plain, unboxed operators; parse and check. Oracle: an independently written textbook binding-power evaluator over the table DESCRIPTION (prefix chain or atom; then repeatedly: the first postfix operator, in declaration order, that binds at least as tightly as the context; else the first infix operator that binds at least as tightly AND has a right operand, otherwise the operator stays unconsumed; equal powers resolved by associativity): compared on acceptance, the fully parenthesised tree and the consumed length (observed by following the expression with a rest-capturing parser). Oracle-free: flattening the tree yields exactly the consumed tokens in order; the three table representations and check mode agree; every fold callback's e.span() covers exactly the flattened leaves of the sub-expression it builds and its e.state() equals the fold of the tokens before its end (C07 / C18 for Pratt). NON-TRIVIAL = the expression contains two operators of equal power, or a unary operator next to a binary one on the same operand, or an infix operator whose right operand is missing; distinct = distinct (table, string).";
 
 pub const ASSUMPTIONS: &[&str] = &[
     "the reference evaluator (this file, `reference`) is written from the textbook algorithm and the statement; powers: an operator of power p captures an operand only if the operand's operators bind at least as tightly",
@@ -30,6 +30,33 @@ pub struct OpD {
     pub sym: char,
     pub fix: Fix,
     pub power: u16,
+    /// the operator is the symbol written TWICE (`--`): an operator parser that can fail after having consumed a token
+    #[serde(default)]
+    pub wide: bool,
+}
+
+impl OpD {
+    fn width(&self) -> usize {
+        1 + self.wide as usize
+    }
+    fn at(&self, toks: &[char], pos: usize) -> bool {
+        (0..self.width()).all(|k| toks.get(pos + k) == Some(&self.sym))
+    }
+    fn text(&self) -> String {
+        std::iter::repeat(self.sym).take(self.width()).collect()
+    }
+}
+
+/// operator occurrences in `Ex` are (symbol, position word): start position in the low 32 bits, width - 1 above
+const WBIT: usize = 1 << 32;
+fn op_pos(p: usize) -> usize {
+    p & (WBIT - 1)
+}
+fn op_width(p: usize) -> usize {
+    (p >> 32) + 1
+}
+fn op_text(c: char, p: usize) -> String {
+    std::iter::repeat(c).take(op_width(p)).collect()
 }
 #[derive(Clone, Debug, PartialEq, Eq, Hash, Serialize, Deserialize)]
 pub struct Table {
@@ -51,9 +78,9 @@ impl Ex {
         match self {
             Ex::Leaf(c, _) => c.to_string(),
             Ex::Group(x, _, _) => format!("[{}]", x.render()),
-            Ex::Pre(o, _, x, _, _) => format!("({}{})", o, x.render()),
-            Ex::Post(x, o, _, _, _) => format!("({}{})", x.render(), o),
-            Ex::In(l, o, _, r, _, _) => format!("({}{}{})", l.render(), o, r.render()),
+            Ex::Pre(o, p, x, _, _) => format!("({}{})", op_text(*o, *p), x.render()),
+            Ex::Post(x, o, p, _, _) => format!("({}{})", x.render(), op_text(*o, *p)),
+            Ex::In(l, o, p, r, _, _) => format!("({}{}{})", l.render(), op_text(*o, *p), r.render()),
         }
     }
     /// (token, position) of every token of the sub-expression, in tree order
@@ -66,16 +93,16 @@ impl Ex {
                 out.push((')', *e - 1));
             }
             Ex::Pre(o, p, x, _, _) => {
-                out.push((*o, *p));
+                (0..op_width(*p)).for_each(|k| out.push((*o, op_pos(*p) + k)));
                 x.flatten(out);
             }
             Ex::Post(x, o, p, _, _) => {
                 x.flatten(out);
-                out.push((*o, *p));
+                (0..op_width(*p)).for_each(|k| out.push((*o, op_pos(*p) + k)));
             }
             Ex::In(l, o, p, r, _, _) => {
                 l.flatten(out);
-                out.push((*o, *p));
+                (0..op_width(*p)).for_each(|k| out.push((*o, op_pos(*p) + k)));
                 r.flatten(out);
             }
         }
@@ -164,10 +191,10 @@ fn r_expr(t: &Table, toks: &[char], pos: usize, min: u32, st: &mut RefStats, fue
     let mut lhs: Option<(String, usize)> = None;
     let mut lhs_power: Option<u16> = None;
     for o in t.ops.iter().filter(|o| o.fix == Fix::Prefix) {
-        if toks.get(pos) == Some(&o.sym) {
+        if o.at(toks, pos) {
             // a prefix operator of power p takes an operand whose operators bind at least as tightly as p
-            if let Some((x, p)) = r_expr(t, toks, pos + 1, o.power as u32 * 2, st, fuel) {
-                lhs = Some((format!("({}{})", o.sym, x), p));
+            if let Some((x, p)) = r_expr(t, toks, pos + o.width(), o.power as u32 * 2, st, fuel) {
+                lhs = Some((format!("({}{})", o.text(), x), p));
                 lhs_power = Some(o.power);
                 break;
             }
@@ -181,9 +208,9 @@ fn r_expr(t: &Table, toks: &[char], pos: usize, min: u32, st: &mut RefStats, fue
     let mut last_powers: Vec<u16> = lhs_power.into_iter().collect();
     'outer: loop {
         for o in t.ops.iter().filter(|o| o.fix == Fix::Postfix) {
-            if o.power as u32 * 2 + 1 >= min && toks.get(p) == Some(&o.sym) {
-                l = format!("({}{})", l, o.sym);
-                p += 1;
+            if o.power as u32 * 2 + 1 >= min && o.at(toks, p) {
+                l = format!("({}{})", l, o.text());
+                p += o.width();
                 if last_powers.contains(&o.power) {
                     st.equal_power_pair = true;
                 }
@@ -193,10 +220,10 @@ fn r_expr(t: &Table, toks: &[char], pos: usize, min: u32, st: &mut RefStats, fue
             }
         }
         for o in t.ops.iter().filter(|o| matches!(o.fix, Fix::Left | Fix::Right)) {
-            if lp(o) >= min && toks.get(p) == Some(&o.sym) {
-                match r_expr(t, toks, p + 1, rp(o), st, fuel) {
+            if lp(o) >= min && o.at(toks, p) {
+                match r_expr(t, toks, p + o.width(), rp(o), st, fuel) {
                     Some((r, p2)) => {
-                        l = format!("({}{}{})", l, o.sym, r);
+                        l = format!("({}{}{})", l, o.text(), r);
                         p = p2;
                         if last_unary {
                             st.unary_next_to_binary = true;
@@ -227,8 +254,10 @@ type P<'a> = chumsky::Boxed<'a, 'a, &'a str, Ex, E<'a>>;
 type BOp<'a> = chumsky::pratt::Boxed<'a, 'a, &'a str, Ex, E<'a>>;
 
 fn boxed_op<'a>(o: &OpD) -> BOp<'a> {
-    let sym = o.sym;
-    let opp = move || just::<_, &'a str, E<'a>>(sym).map_with(|c, e| (c, e.span().start));
+    let (sym, wide) = (o.sym, o.wide);
+    let text = o.text();
+    // a wide operator is the multi-token just("--"): it fails AFTER consuming one token on "-a"
+    let opp = move || just::<_, &'a str, E<'a>>(text.clone()).map_with(move |_, e| (sym, e.span().start | if wide { WBIT } else { 0 }));
     macro_rules! st {
         ($e:expr) => {{
             let s = $e.state();
@@ -314,9 +343,17 @@ fn static_catalogue<'a>() -> Vec<(Table, P<'a>)> {
             just::<_, &'a str, E<'a>>($c).map_with(|c, e| (c, e.span().start))
         };
     }
+    macro_rules! oppw {
+        ($c:expr, $s:expr) => {
+            just::<_, &'a str, E<'a>>($s).map_with(|_, e| ($c, e.span().start | WBIT))
+        };
+    }
     macro_rules! pre {
         ($p:expr, $c:expr) => {
-            prefix($p, opp!($c), |(c, p): (char, usize), x: Ex, e: &mut chumsky::input::MapExtra<'a, '_, &'a str, E<'a>>| {
+            pre!(@ $p, opp!($c))
+        };
+        (@ $p:expr, $o:expr) => {
+            prefix($p, $o, |(c, p): (char, usize), x: Ex, e: &mut chumsky::input::MapExtra<'a, '_, &'a str, E<'a>>| {
                 let sp = e.span();
                 Ex::Pre(c, p, Box::new(x), (sp.start, sp.end), st!(e))
             })
@@ -332,13 +369,17 @@ fn static_catalogue<'a>() -> Vec<(Table, P<'a>)> {
     }
     macro_rules! inf {
         ($a:expr, $c:expr) => {
-            infix($a, opp!($c), |l: Ex, (c, p): (char, usize), r: Ex, e: &mut chumsky::input::MapExtra<'a, '_, &'a str, E<'a>>| {
+            inf!(@ $a, opp!($c))
+        };
+        (@ $a:expr, $o:expr) => {
+            infix($a, $o, |l: Ex, (c, p): (char, usize), r: Ex, e: &mut chumsky::input::MapExtra<'a, '_, &'a str, E<'a>>| {
                 let sp = e.span();
                 Ex::In(Box::new(l), c, p, Box::new(r), (sp.start, sp.end), st!(e))
             })
         };
     }
-    let d = |sym: char, fix: Fix, power: u16| OpD { sym, fix, power };
+    let d = |sym: char, fix: Fix, power: u16| OpD { sym, fix, power, wide: false };
+    let dw = |sym: char, fix: Fix, power: u16| OpD { sym, fix, power, wide: true };
     let tb = |ops: Vec<OpD>| Table { ops, parens: false };
     let a = || atom(false, None);
     vec![
@@ -353,6 +394,11 @@ fn static_catalogue<'a>() -> Vec<(Table, P<'a>)> {
             a().pratt((inf!(left(0), '+'), inf!(left(0), '-'), inf!(left(1), '*'), inf!(right(2), '^'), pre!(3, '-'), post!(2, '!'))).boxed(),
         ),
         (tb(vec![d('!', Fix::Postfix, 1), d('+', Fix::Left, 1)]), a().pratt((post!(1, '!'), inf!(left(1), '+'))).boxed()),
+        // multi-token operators declared before their one-token prefixes
+        (
+            tb(vec![dw('-', Fix::Prefix, 2), d('-', Fix::Prefix, 1), dw('*', Fix::Right, 2), d('-', Fix::Left, 1), d('*', Fix::Left, 2)]),
+            a().pratt((pre!(@ 2, oppw!('-', "--")), pre!(1, '-'), inf!(@ right(2), oppw!('*', "**")), inf!(left(1), '-'), inf!(left(2), '*'))).boxed(),
+        ),
     ]
 }
 
@@ -517,11 +563,12 @@ fn gen_table(t: &mut Tape, plain: bool) -> Table {
         let sym = SYMS[t.pick(SYMS.len())];
         let fix = [Fix::Prefix, Fix::Postfix, Fix::Left, Fix::Left, Fix::Right][t.pick(5)];
         let power = t.pick(4) as u16;
-        let o = OpD { sym, fix, power };
+        let wide = t.chance(1, 5);
+        let o = OpD { sym, fix, power, wide };
         if plain {
             let infix = |f: Fix| matches!(f, Fix::Left | Fix::Right);
             let clash = ops.iter().any(|p| {
-                (p.sym == sym && (p.fix == fix || (infix(p.fix) && infix(fix)) || (p.fix == Fix::Postfix && infix(fix)) || (infix(p.fix) && fix == Fix::Postfix)))
+                (p.sym == sym && p.wide == wide && (p.fix == fix || (infix(p.fix) && infix(fix)) || (p.fix == Fix::Postfix && infix(fix)) || (infix(p.fix) && fix == Fix::Postfix)))
                     || (infix(p.fix) && infix(fix) && p.fix != fix && p.power == power)
             });
             if clash {
@@ -531,7 +578,7 @@ fn gen_table(t: &mut Tape, plain: bool) -> Table {
         ops.push(o);
     }
     if ops.is_empty() {
-        ops.push(OpD { sym: '+', fix: Fix::Left, power: 1 });
+        ops.push(OpD { sym: '+', fix: Fix::Left, power: 1, wide: false });
     }
     Table { ops, parens: t.chance(1, 3) }
 }
@@ -555,7 +602,7 @@ fn sample_expr(t: &Table, tape: &mut Tape, depth: u32, out: &mut Vec<char>) {
     let post: Vec<&OpD> = t.ops.iter().filter(|o| o.fix == Fix::Postfix).collect();
     let inf: Vec<&OpD> = t.ops.iter().filter(|o| matches!(o.fix, Fix::Left | Fix::Right)).collect();
     while !pre.is_empty() && tape.chance(1, 3) {
-        out.push(pre[tape.pick(pre.len())].sym);
+        out.extend(pre[tape.pick(pre.len())].text().chars());
     }
     if t.parens && depth < 3 && tape.chance(1, 5) {
         out.push('(');
@@ -565,10 +612,10 @@ fn sample_expr(t: &Table, tape: &mut Tape, depth: u32, out: &mut Vec<char>) {
         out.push(['a', 'b'][tape.pick(2)]);
     }
     while !post.is_empty() && tape.chance(1, 3) {
-        out.push(post[tape.pick(post.len())].sym);
+        out.extend(post[tape.pick(post.len())].text().chars());
     }
     if !inf.is_empty() && depth < 6 && out.len() < 36 && tape.chance(3, 5) {
-        out.push(inf[tape.pick(inf.len())].sym);
+        out.extend(inf[tape.pick(inf.len())].text().chars());
         sample_expr(t, tape, depth + 1, out);
     }
 }
